@@ -33,12 +33,18 @@ def _guard_of(stmt, charvar):
     """Is *stmt* `if not X.char_allowed(char): raise LexerError(...)` ? -> the Raise node"""
     if not isinstance(stmt, ast.If):
         return None
-    t = stmt.test
-    if isinstance(t, ast.UnaryOp) and isinstance(t.op, ast.Not) and _is_call_to(t.operand, "char_allowed") \
-            and t.operand.args and isinstance(t.operand.args[0], ast.Name) and t.operand.args[0].id == charvar:
-        for b in stmt.body:
-            if isinstance(b, ast.Raise) and b.exc is not None and "LexerError" in norm(b.exc):
-                return b
+    t, refused, allowed = stmt.test, stmt.body, stmt.orelse
+    neg = False
+    while isinstance(t, ast.UnaryOp) and isinstance(t.op, ast.Not):
+        t, neg = t.operand, not neg
+    if not neg:
+        refused, allowed = allowed, refused       # if char_allowed(char): <go on> else: raise
+    if _is_call_to(t, "char_allowed") and t.args and isinstance(t.args[0], ast.Name) and t.args[0].id == charvar:
+        # the refused branch ends in the raise, the allowed branch does nothing (it falls through to the rest of the loop)
+        if all(isinstance(b, ast.Pass) or (isinstance(b, ast.Expr) and isinstance(b.value, ast.Constant)) for b in allowed):
+            for b in refused:
+                if isinstance(b, ast.Raise) and b.exc is not None and "LexerError" in norm(b.exc):
+                    return b
     return None
 
 
